@@ -386,11 +386,12 @@ func c18GenGraph(r *Rng, hot, marker string) *c18Graph {
 }
 
 // c18ValMode selects how sample values are drawn (set by the runner per case, like c18LookPct):
-//   pos     1..1000
-//   small   0..3 with many zeros, and now and then a large value: nodes whose cost is zero or
-//           truncates to zero in a coarse output unit
-//   signed  -1000..1000 incl. zero (diff-like profiles)
-//   cancel  positive, with exactly cancelling twins on the same stack
+//
+//	pos     1..1000
+//	small   0..3 with many zeros, and now and then a large value: nodes whose cost is zero or
+//	        truncates to zero in a coarse output unit
+//	signed  -1000..1000 incl. zero (diff-like profiles)
+//	cancel  positive, with exactly cancelling twins on the same stack
 var c18ValMode = "pos"
 
 func c18Value(r *Rng) int64 {
